@@ -501,6 +501,7 @@ Scenario generate(const std::string& prop, uint64_t seed, const std::string& tie
         } else {
             // crowded leaves: particle-pair counts beyond 2^31 in a single near-field call
             sc.height = 2 + int(r.below(2));
+            if (prop == "C18") sc.height = 3;   // the leaf operators (P2M, L2P) must run on the crowded leaves: their counters are per leaf, not per call
             const long cells = 1L << (sc.height - 1);
             const long nA = 46500 + long(r.below(6000)), nB = 46500 + long(r.below(6000));
             const long ax = long(r.below(uint64_t(cells - 1)));
@@ -510,7 +511,7 @@ Scenario generate(const std::string& prop, uint64_t seed, const std::string& tie
             }
             sc.blockSize = r.chance(0.5) ? 1 : 1000000;
             sc.history.clear();
-            sc.history.push_back(r.chance(0.5) ? p2p : full);
+            sc.history.push_back((r.chance(0.5) && prop != "C18") ? p2p : full);
         }
         toBox(sc, sc.src);
     }
